@@ -12,6 +12,12 @@ correspondence : standard_aggregation / naive_aggregation kernels (rebuilt from 
                  `ExtLloyd.lloydCluster` / `lloydAggregation` / `mostInterior` (ops `ext_c12_lloyd`, `ext_c12_lloyd_agg`,
                  `ext_c12_most_interior`), exact on clusters, centres, AggOp CSR arrays, ValueError rejections;
                  symmetric and nonsymmetric patterns, ties, zero-length edges, duplicate entries / centres.
+                 balanced Lloyd (part e): `balanced_lloyd_cluster` with explicit centres (maxiter 0..4, rebalance_iters
+                 0..3, tiebreaking on/off), `balanced_lloyd_aggregation` through the public wrapper (replayed permutation,
+                 all five measures) and the raw `center_nodes` kernel vs `BalLloyd.cluster` / `aggregation` / `centerNodes`
+                 (ops `ext_c12_ballloyd`, `ext_c12_ballloyd_agg`, `ext_c12_center_nodes`), exact on clusters, centres,
+                 AggOp CSR arrays, d / p / pc, the kind of ValueError; the `np.argsort` results inside `_rebalance`
+                 are recorded and replayed (the model checks that they are sorted permutations).
 search         : public routines of pyamg/aggregation/aggregate.py (standard, naive, pairwise with
                  1..3 matchings, Lloyd, balanced Lloyd) judged by the partition specification; the
                  pairwise wrapper's T and Cpts must be the composition of its recorded matchings.
@@ -29,8 +35,13 @@ META = {
     'rule': 'graphs: every labelled graph on <= 4 (quick) / <= 6 (thorough) vertices with and without self loops, plus seeded '
             'structured random graphs up to n = 60 (paths, stars, cycles, cliques, isolated pairs, grids, two components); '
             'non-trivial = the graph has an edge; distinct = distinct (routine, graph, parameters); Lloyd part: the same graph '
-            'streams with small dyadic weights, 1..4 centres, maxiter 0..5, all five measures',
-    'search_only': ['balanced Lloyd: specification checkers on the real outputs (no Lean model)',
+            'streams with small dyadic weights, 1..4 centres, maxiter 0..5, all five measures; balanced Lloyd part: the same '
+            'streams with positive dyadic weights (symmetric / nonsymmetric weights, nonsymmetric patterns), 1..5 centres, '
+            'maxiter 0..4, rebalance_iters 0..3, tiebreaking on/off',
+    'search_only': ['balanced Lloyd: np.random.permutation and the np.argsort results inside _rebalance are replayed, not '
+                    'modelled; termination of bellman_ford_balanced within n*n sweeps is not proved (the model reports the '
+                    'RuntimeError); maxiter = 0 together with a rebalance round is not called (reads uninitialised work '
+                    'arrays in the unchanged code: reported finding) and complex strength values are outside the model',
                     'Lloyd: np.random.permutation itself is replayed, not modelled; complex strength values and measure=inv '
                     'with a stored zero (1/0 = inf) are outside the model (judged by the specification checker only)',
                     'pairwise wrapper: strength matrices and Galerkin products between matchings are not modelled; every kernel '
@@ -39,7 +50,12 @@ META = {
     'partial': [],
     'assumptions': ['Lloyd theorems (lloyd_cluster_spec, lloyd_aggregation_spec): symmetric sparsity pattern, column indices in '
                     'range, weights non-negative after the measure, distinct initial centres, maxiter >= 1; Lloyd exact comparison: '
-                    'small dyadic weights (path sums exact in binary64), dyadic ratio, powers of two for measure=inv'],
+                    'small dyadic weights (path sums exact in binary64), dyadic ratio, powers of two for measure=inv',
+                    'balanced Lloyd theorems (balanced_lloyd_cluster_spec, balanced_lloyd_aggregation_spec): distinct initial '
+                    'centres, maxiter >= 1, every weight >= tol = 1e-14 > 0 (any pattern); they speak about runs that return '
+                    '(ValueError / RuntimeError exits and the refusals `unmodelled...` of the model are not results); '
+                    'balanced_lloyd_first_pass: weights on a grid h*N with 2*tol < h; exact comparison: positive dyadic '
+                    'weights (sums of squared path lengths exact in binary64), rows without duplicate entries'],
 }
 
 
@@ -627,23 +643,548 @@ def part_d(ctx, graphs):
             ctx.violation(f'{what}: {e}', case)
 
 
+# ---------------------------------------------------------------------------------------------
+# part v: the VALUES of the strength matrix. Every public routine x every measure / option on complex
+# strength matrices (purely imaginary, purely real of both signs, mixed entries) and on real matrices
+# with negative entries; symmetric, conjugate-symmetric and nonsymmetric values on a symmetric pattern;
+# CSR and (Lloyd) CSC input. Judged by the partition / reachability specification on the PATTERN (all
+# generated values are non-zero, so stored = non-zero), reachable set by BFS on the dense pattern.
+# Real-valued Lloyd cases are also compared with the Lean model (`ext_c12_lloyd_agg`, real weights only).
+
+# balanced_lloyd_aggregation on complex C uses real(C.data) whatever the measure (reported; no known: entry):
+# until that is settled, complex values with a real part <= 0 are given to balanced Lloyd with measure=None only
+BALANCED_COMPLEX_ANY_MEASURE = False
+
+_VALS = {
+    'c_mixed': [2j, -1j, 0.5j, 1.0, 2.0, -1.0, -0.5, 1 + 1j, -1 + 2j, 0.5 - 1j, -2 - 0.5j],
+    'c_imag': [1j, 2j, -1j, -0.5j, 4j],
+    'c_real': [1.0, 2.0, -1.0, -0.5, 4.0, -2.0],
+    'c_posre': [1.0, 1 + 1j, 0.5 - 2j, 2 + 0.5j, 0.25 - 1j, 4.0],
+    'r_neg': [-0.25, -0.5, -1.0, -1.0, -2.0, -4.0],
+    'r_mixed': [-2.0, -1.0, -0.5, 0.5, 1.0, 1.0, 2.0, 4.0],
+}
+_MEASURES = (None, 'unit', 'abs', 'inv', 'min')
+
+
+def value_matrix(rng, M, cls, symmode):
+    """dense matrix with the pattern of the graph M (self loops included) and non-zero values of class `cls`"""
+    M = np.array(M)
+    n = M.shape[0]
+    V = rng.choice(np.array(_VALS[cls], dtype=complex if cls.startswith('c_') else float), size=(n, n))
+    if symmode == 'sym':
+        V = np.triu(V) + np.triu(V, 1).T
+    elif symmode == 'conj':
+        V = np.triu(V) + np.conj(np.triu(V, 1)).T
+    return V * (M != 0)
+
+
+def _case_arrays(C):
+    return {'n': int(C.shape[0]), 'ap': [int(v) for v in C.indptr], 'aj': [int(v) for v in C.indices],
+            're': [float(v) for v in np.real(C.data)],
+            'im': [float(v) for v in np.imag(C.data)] if C.dtype.kind == 'c' else None}
+
+
+def oracle_measure(z, measure):
+    """edge lengths by the table in the docstring of lloyd_aggregation (real part for complex values)"""
+    z = np.asarray(z)
+    if measure is None:
+        w = z
+    elif measure == 'unit':
+        w = np.ones(len(z))
+    elif measure == 'abs':
+        w = np.abs(z)
+    elif measure == 'inv':
+        w = 1.0 / np.abs(z)
+    else:
+        w = z - min(z, key=lambda v: (v.real, v.imag)) if len(z) else z
+    return np.real(w)
+
+
+def _bfs_dense(P, sources):
+    seen = np.zeros(P.shape[0], dtype=bool)
+    stack = [int(s) for s in sources]
+    for s in stack:
+        seen[s] = True
+    while stack:
+        i = stack.pop()
+        for j in np.nonzero(P[i] & ~seen)[0]:
+            seen[j] = True
+            stack.append(int(j))
+    return seen
+
+
+def values_case(ctx, c, wrapper_calls=None):
+    """run ONE public routine on the matrix stored in the case `c`; {'err': property error or None, 'fkey', 'out'}"""
+    from pyamg.aggregation import aggregate as AG
+    n = int(c['n'])
+    data = np.array(c['re'], dtype=float)
+    if c['im'] is not None:
+        data = data + 1j * np.array(c['im'], dtype=float)
+    ap, aj = np.array(c['ap'], dtype=np.int32), np.array(c['aj'], dtype=np.int32)
+    C = sp.csr_array((data, aj, ap), shape=(n, n))
+    P = np.zeros((n, n), dtype=bool)
+    P[np.repeat(np.arange(n), np.diff(ap)), aj] = True
+    P = P | P.T
+    off = P & ~np.eye(n, dtype=bool)
+    routine = c['routine'].split(':', 1)[1]
+    res = {'err': None, 'fkey': None, 'out': None}
+    try:
+        if routine == 'standard':
+            AggOp, roots = AG.standard_aggregation(C)
+            e = check_aggop(AggOp, roots, n, routine)
+            if e:
+                if not off.any() and AggOp.shape == (n, 1) and AggOp.nnz == 0:
+                    res['fkey'] = 'std-agg-no-edges'
+            else:
+                D = sp.csr_array(AggOp).toarray()
+                for i in range(n):
+                    if (D[i].sum() == 0) != (not off[i].any()):
+                        e = (f'node {i} with {int(off[i].sum())} off-diagonal connections is '
+                             f'{"un" if D[i].sum() == 0 else ""}aggregated')
+                        break
+                else:
+                    for k in range(D.shape[1]):
+                        mem = np.nonzero(D[:, k])[0]
+                        if not _bfs_dense(off[np.ix_(mem, mem)], [0]).all():
+                            e = f'aggregate {k} = {mem.tolist()} is not connected'
+                            break
+            res['err'] = e
+        elif routine == 'naive':
+            AggOp, roots = AG.naive_aggregation(C)
+            e = check_aggop(AggOp, roots, n, routine)
+            if not e and n and sp.csr_array(AggOp).toarray().sum(1).min() != 1:
+                e = 'a node is left unaggregated'
+            res['err'] = e
+        elif routine == 'pairwise':
+            with _PairwiseSpy(AG) as spy:
+                T, roots = AG.pairwise_aggregation(C, matchings=c['matchings'], theta=c['theta'], norm=c['norm'])
+            if wrapper_calls is not None:
+                wrapper_calls.extend(spy.calls)
+            e = check_aggop(T, roots, n, routine)
+            if not e:
+                D = sp.csr_array(T).toarray()
+                if D.sum(1).min() != 1:
+                    e = 'a node is left unaggregated'
+                elif D.sum(0).max() > 2 ** c['matchings']:
+                    e = f'an aggregate has {int(D.sum(0).max())} > 2^{c["matchings"]} nodes'
+                else:
+                    e = composition_error(spy.calls, T, roots, n)
+            res['err'] = e
+        else:
+            fn = AG.lloyd_aggregation if routine == 'lloyd' else AG.balanced_lloyd_aggregation
+            G = C.copy() if c.get('fmt', 'csr') == 'csr' else sp.csc_array((data.copy(), aj.copy(), ap.copy()), shape=(n, n))
+            np.random.seed(int(c['seed']))
+            perm = np.random.permutation(n)
+            np.random.seed(int(c['seed']))
+            try:
+                AggOp, centers = fn(G, ratio=c['ratio'], measure=c['measure'], maxiter=int(c['maxiter']))
+            except ValueError as ex:
+                w, msg = oracle_measure(data, c['measure']), str(ex)
+                res['out'] = 'ValueError'
+                naggs = int(min(max(c['ratio'] * n, 1), n))
+                if 'positive measure' in msg and (w < 0).any():
+                    ctx.feat('values:refused:negative_measure')
+                elif routine == 'balanced_lloyd' and 'positive weights' in msg and (w <= 0).any():
+                    ctx.feat('values:refused:nonpositive_weight')
+                elif routine == 'balanced_lloyd' and 'disconnected' in msg and not _bfs_dense(P, perm[:naggs]).all():
+                    ctx.feat('values:refused:disconnected')
+                elif routine == 'balanced_lloyd' and 'maxsize' in msg:
+                    ctx.feat('values:refused:maxsize')
+                else:
+                    res['err'] = f'raised ValueError: {msg}'
+                return res
+            AggOp = sp.csr_array(AggOp)
+            e = check_aggop(AggOp, centers, n, routine)
+            if not e:
+                D = AggOp.toarray()
+                seen = _bfs_dense(P, centers)
+                for i in range(n):
+                    if bool(seen[i]) != (D[i].sum() == 1):
+                        e = (f'node {i} can{"" if seen[i] else "not"} reach a centre (centres {[int(v) for v in centers]}) '
+                             f'but is {"un" if D[i].sum() == 0 else ""}assigned')
+                        break
+            res['err'] = e
+            res['out'] = enc_ints(AggOp.indptr) + ';' + enc_ints(AggOp.indices) + ';' + enc_ints(AggOp.data) + ';' + enc_ints(centers)
+    except Exception as ex:
+        res['err'] = f'raised {type(ex).__name__}: {ex}'
+    return res
+
+
+def part_v(ctx, graphs):
+    rng = ctx.np_rng
+    classes = list(_VALS)
+    wrapper_calls, items = [], []
+    for t, (M, kind) in enumerate(graphs):
+        M = np.array(M)
+        n = M.shape[0]
+        cls = classes[t % len(classes)]
+        symmode = ('sym', 'conj', 'nonsym')[(t // len(classes)) % 3]
+        cplx = cls.startswith('c_')
+        W = value_matrix(rng, M, cls, symmode)
+        has_edge = bool((W - np.diag(np.diag(W))).any())
+        base = {**_case_arrays(gen.int32csr(sp.csr_array(W))), 'values': cls + '/' + symmode, 'graph': kind}
+        ctx.feat('values:' + cls)
+        ctx.feat('values:' + symmode)
+
+        def one(routine, arrays=None, **kw):
+            case = {**base, **(arrays or {}), 'routine': 'values:' + routine, **kw}
+            ctx.case(key=_key('values', routine, case['ap'], case['aj'], case['re'], case['im'], sorted(kw.items(), key=str)),
+                     nontrivial=has_edge, sample={k: v for k, v in case.items() if k not in ('ap', 'aj', 're', 'im')}
+                     if ctx.evaluations % 499 == 0 else None)
+            ctx.feat('values:' + routine)
+            res = values_case(ctx, case, wrapper_calls)
+            if res['err']:
+                ctx.violation(f'{routine}_aggregation on {cls} values ({ {k: v for k, v in kw.items() if k != "seed"} }): {res["err"]}',
+                              case, fkey=res['fkey'])
+            return case, res
+        one('standard')
+        one('naive')
+        # ---- pairwise on a matrix with these off-diagonal values (not an M-matrix) and a non-zero diagonal
+        if t % 2 == 0:
+            Woff = W - np.diag(np.diag(W))
+            dg = (np.abs(Woff).sum(1) + rng.integers(0, 2, size=n) + (np.abs(Woff).sum(1) == 0)) * \
+                rng.choice(np.array([1, -1, 1j, 1 + 1j] if cplx else [1.0, 1.0, -1.0]), size=n)
+            A = gen.int32csr(sp.csr_array(Woff + np.diag(dg)))
+            one('pairwise', arrays=_case_arrays(A), matchings=int(rng.integers(1, 4)), theta=float(rng.choice([0.0, 0.25, 0.5])),
+                norm='abs' if cplx else str(rng.choice(['min', 'abs'])))      # norm='min' is not defined for complex matrices
+        # ---- Lloyd / balanced Lloyd x every measure
+        ratio = float(rng.choice([0.125, 0.25, 0.5, 0.75, 1.0]))
+        maxiter = int(rng.integers(1, 5))
+        fmt = 'csc' if t % 4 == 3 else 'csr'
+        for measure in _MEASURES:
+            for routine in ('lloyd', 'balanced_lloyd'):
+                if routine == 'balanced_lloyd' and cplx and measure is not None and cls != 'c_posre' and not BALANCED_COMPLEX_ANY_MEASURE:
+                    continue
+                seed = int(rng.integers(2**31))
+                case, res = one(routine, ratio=ratio, measure=measure, maxiter=maxiter, fmt=fmt, seed=seed)
+                if routine == 'lloyd' and not cplx and res['out'] is not None:
+                    np.random.seed(seed)
+                    perm = np.random.permutation(n)
+                    line = (f'ext_c12_lloyd_agg {measure} {enc_rat(ratio)} '
+                            f'{_hdr(n, case["ap"], case["aj"], case["re"])} {enc_ints(perm)} {maxiter}')
+                    items.append((line, res['out'], case))
+    compare_pairwise_calls(ctx, wrapper_calls)
+    outs = ctx.lean([it[0] for it in items]) if items else []
+    for (line, out, case), o in zip(items, outs):
+        ctx.feat('values:lloyd_vs_model')
+        if o != 'unmodelled' and o != out:
+            ctx.corr('lloyd_aggregation (negative real values) vs ExtLloyd model', case, o, out)
+
+
+# ---------------------------------------------------------------------------------------------
+# part e (extension E34): balanced Lloyd clustering / aggregation vs the executable Lean model
+# `BalLloyd.cluster` / `BalLloyd.aggregation` / `BalLloyd.centerNodes` (ops `ext_c12_ballloyd`,
+# `ext_c12_ballloyd_agg`, `ext_c12_center_nodes`), exact on positive dyadic weights.  NumPy's default
+# `argsort` is not stable: the two sort orders of every `_rebalance` call are recorded and replayed
+# (the model checks that a recorded order is a sorted permutation).
+
+TOL = 1e-14          # `const double tol` of bellman_ford_balanced / floyd_warshall / center_nodes
+
+
+class _ArgsortSpy:
+    """records the results of `np.argsort` inside pyamg.graph (a forwarding proxy for the module's `np`)"""
+    def __init__(self, PG):
+        self.PG, self.calls = PG, []
+
+    def __enter__(self):
+        spy = self
+
+        class Proxy:
+            def __getattr__(self, name):
+                return getattr(np, name)
+
+            def argsort(self, a, *k, **kw):
+                r = np.argsort(a, *k, **kw)
+                spy.calls.append([int(v) for v in r])
+                return r
+        self.saved = self.PG.np
+        self.PG.np = Proxy()
+        return self
+
+    def __exit__(self, *a):
+        self.PG.np = self.saved
+
+
+def _ords(calls):
+    es = [v for c in calls[0::2] for v in c]
+    ss = [v for c in calls[1::2] for v in c]
+    return enc_ints(es), enc_ints(ss)
+
+
+def bal_weights(rng, M, t):
+    """(ap, aj, ax, kind, sym): positive dyadic weights; symmetric weights (unit / random with ties), nonsymmetric
+    weights on a symmetric pattern, nonsymmetric pattern; canonical rows (sorted, no duplicates)"""
+    M = np.array(M)
+    n = M.shape[0]
+    pat = (M != 0) | (M != 0).T
+    mode = t % 6
+    vals = [0.25, 0.5, 1.0, 1.0, 1.5, 2.0, 3.0]
+    sym = True
+    if mode == 0:
+        W = np.ones((n, n))
+    elif mode in (1, 2, 3):
+        W = rng.choice(vals, size=(n, n))
+        W = np.triu(W) + np.triu(W, 1).T
+    elif mode == 4:
+        W = rng.choice(vals, size=(n, n))
+        sym = False
+    else:
+        W = rng.choice(vals, size=(n, n))
+        pat = pat & (rng.random((n, n)) < 0.8)
+        sym = False
+    G = gen.int32csr(sp.csr_array(np.where(pat, W, 0.0)))
+    kind = ('unit', 'symw', 'symw', 'symw', 'nonsymw', 'nonsympat')[mode]
+    return G.indptr.copy(), G.indices.copy(), G.data.astype(np.float64), kind, sym
+
+
+def bal_cluster_spec_error(n, clusters, centers, k):
+    """the clauses of `BalLloyd.cluster_spec` stated independently on a real output"""
+    clusters = [int(v) for v in clusters]
+    centers = [int(v) for v in centers]
+    if len(centers) != k or len(clusters) != n:
+        return f'{len(centers)} centres / {len(clusters)} cluster ids for k = {k}, n = {n}'
+    if any(not (0 <= v < k) for v in clusters):
+        return 'a cluster id lies outside 0..k-1 (unassigned node or invalid id)'
+    if any(not (0 <= c < n) for c in centers):
+        return 'a centre lies outside 0..n-1'
+    for a, c in enumerate(centers):
+        if clusters[c] != a:
+            return f'centre {c} of cluster {a} carries cluster id {clusters[c]}'
+    return None
+
+
+def _strongly_connected(n, ap, aj):
+    if n == 0:
+        return True
+    G = sp.csr_array((np.ones(len(aj)), aj, ap), shape=(n, n))
+    nc, _ = csgraph.connected_components(G, directed=True, connection='strong')
+    return nc == 1
+
+
+def bal_cluster_item(n, ap, aj, ax, centers, maxiter, reb, tb):
+    from pyamg import graph as PG
+    G = sp.csr_array((ax.copy(), aj.copy(), ap.copy()), shape=(n, n))
+    err = None
+    with _ArgsortSpy(PG) as spy:
+        try:
+            cl, ce = PG.balanced_lloyd_cluster(G, np.array(centers, dtype=np.int32), maxiter=maxiter,
+                                               rebalance_iters=reb, tiebreaking=tb)
+            out = enc_ints(cl) + ';' + enc_ints(ce)
+            res = (np.array(cl), np.array(ce))
+        except ValueError as ex:
+            msg = str(ex)
+            out = ('ValueError:maxsize' if 'maxsize' in msg else 'ValueError:disconnected' if 'disconnected' in msg
+                   else 'ValueError:pc' if 'Predecessor' in msg else 'ValueError')
+            res, err = None, out
+        except RuntimeError:
+            out, res, err = 'too-many-iterations', None, 'RuntimeError'
+    es, ss = _ords(spy.calls)
+    line = (f'ext_c12_ballloyd {_hdr(n, ap, aj, ax)} {enc_rat(TOL)} {int(tb)} {enc_ints(centers)} {maxiter} {reb} '
+            f'{es} {ss}')
+    return line, out, res, err, len(spy.calls) // 2
+
+
+def part_e(ctx, graphs):
+    from pyamg import amg_core
+    from pyamg import graph as PG
+    from pyamg.aggregation import aggregate as AG
+    import warnings
+    rng = ctx.np_rng
+    items = []
+    for t, (M, kind) in enumerate(graphs):
+        M = np.array(M)
+        n = M.shape[0]
+        if n < 1:
+            continue
+        ap, aj, ax, wk, sym = bal_weights(rng, M, t)
+        has_edge = bool(len(aj))
+        conn = _strongly_connected(n, ap, aj)
+        ctx.feat('bal_weights:' + wk + ('+connected' if conn else ''))
+        # ---- balanced_lloyd_cluster with explicit centres
+        k = int(rng.integers(1, min(n, 5) + 1))
+        centers = rng.choice(n, size=k, replace=False).astype(np.int32)
+        valid = True
+        r = t % 29
+        if r == 7:
+            centers = np.append(centers, n).astype(np.int32)
+            valid = False
+        elif r == 9:
+            centers = np.append(centers, -1).astype(np.int32)
+            valid = False
+        elif r == 11:
+            centers = np.zeros(0, dtype=np.int32)
+            valid = False
+        axc = ax
+        if r == 13 and len(ax):
+            axc = ax.copy()
+            axc[int(rng.integers(len(ax)))] = float(rng.choice([0.0, -0.5]))
+            valid = False
+        maxiter = int(rng.integers(0, 5))
+        reb = int(rng.integers(0, 4))
+        if maxiter == 0 and len(centers) >= 2:
+            reb = 0      # maxiter = 0 with a rebalance round reads uninitialised work arrays (reported finding): not called
+        tb = bool(t % 4 != 3)
+        c0 = [int(v) for v in centers]
+        line, out, res, err, nreb = bal_cluster_item(n, ap, aj, axc, centers, maxiter, reb, tb)
+        case = {'routine': 'balanced_lloyd_cluster', 'n': n, 'ap': ap.tolist(), 'aj': aj.tolist(),
+                'ax': [float(v) for v in axc], 'centers': c0, 'maxiter': maxiter, 'reb': reb, 'tb': tb}
+
+        def judge(res=res, err=err, n=n, k=len(c0), sym=sym, conn=conn, valid=valid, maxiter=maxiter):
+            if res is None:
+                if not valid:
+                    return None if err == 'ValueError' else f'{err} instead of the argument ValueError'
+                if err == 'ValueError':
+                    return 'ValueError for a valid input'
+                if sym and conn and err in ('ValueError:disconnected', 'ValueError:pc', 'RuntimeError'):
+                    return f'{err} on a connected symmetric graph'
+                return None
+            if not valid:
+                return 'an invalid input was accepted'
+            if sym and maxiter >= 1:
+                return bal_cluster_spec_error(n, res[0], res[1], k)
+            return None
+        items.append((line, out, 'balanced_lloyd_cluster', has_edge, judge, case))
+        ctx.feat('bal_cluster:' + ('valid' if valid else 'rejected'))
+        ctx.feat(f'bal_rebalance_calls:{min(nreb, 3)}')
+        if res is not None and valid and not (res[1] == np.array(c0)).all():
+            ctx.feat('bal_cluster:centres moved')
+        # ---- raw center_nodes kernel on the state one real Bellman-Ford pass leaves
+        if valid and t % 2 == 0:
+            cs = np.array(c0, dtype=np.int32)
+            kk = len(cs)
+            maxsize = int(12 * np.ceil(n / kk))
+            d = np.full(n, np.inf)
+            m = np.full(n, -1, dtype=np.int32)
+            p = np.full(n, -1, dtype=np.int32)
+            pc = np.zeros(n, dtype=np.int32)
+            s = np.ones(kk, dtype=np.int32)
+            d[cs] = 0
+            m[cs] = np.arange(kk)
+            p[cs] = cs
+            pc[cs] = 1
+            try:
+                amg_core.bellman_ford_balanced(n, ap, aj, ax, cs, d, m, p, pc, s, True)
+                ok = m.min() >= 0 and s.max() <= maxsize
+            except RuntimeError:
+                ok = False
+            if ok:
+                line = (f'ext_c12_center_nodes {_hdr(n, ap, aj, ax)} {enc_rat(TOL)} {maxsize} {enc_ints(cs)} {_orats(d)} '
+                        f'{enc_ints(m)} {enc_ints(p)} {enc_ints(pc)} {enc_ints(s)}')
+                case = {'routine': 'center_nodes', 'n': n, 'ap': ap.tolist(), 'aj': aj.tolist(), 'ax': [float(v) for v in ax],
+                        'centers': c0}
+                Cptr = np.zeros(kk, dtype=np.int32)
+                D = np.zeros(maxsize * maxsize)
+                P = np.zeros(maxsize * maxsize, dtype=np.int32)
+                CC = np.zeros(n, dtype=np.int32)
+                L = np.zeros(n, dtype=np.int32)
+                q = np.zeros(maxsize)
+                m0 = m.copy()
+                ch = amg_core.center_nodes(n, ap, aj, ax, Cptr, D, P, CC, L, q, cs, d, m, p, pc, s)
+                out = (enc_ints(cs) + ';' + _orats(d) + ';' + enc_ints(p) + ';' + enc_ints(pc) + ';' +
+                       ('true' if ch else 'false'))
+
+                def judge_cn(m0=m0, m=m.copy(), cs=cs.copy(), sym=sym):
+                    if (m0 != m).any():
+                        return 'center_nodes changed the cluster ids'
+                    if sym and any(m[c] != a for a, c in enumerate(cs)):
+                        return 'center_nodes moved a centre out of its cluster'
+                    return None
+                items.append((line, out, 'center_nodes', has_edge, judge_cn, case))
+        # ---- balanced_lloyd_aggregation through the public wrapper: the centres are the replayed permutation
+        if t % 2 == 1 or n <= 4:
+            measure = ['None', 'unit', 'abs', 'inv', 'min'][int(rng.integers(5))]
+            if measure == 'inv':
+                ax2 = rng.choice([0.25, 0.5, 1.0, 2.0, 4.0], size=len(ax))
+            else:
+                ax2 = ax
+            ratio = float(rng.choice([0.125, 0.25, 0.5, 0.75, 1.0]))
+            maxiter = int(rng.integers(1, 5))
+            reb = int(rng.integers(0, 4))
+            seed = int(rng.integers(2**31))
+            np.random.seed(seed)
+            perm = np.random.permutation(n)
+            C = sp.csr_array((ax2.copy(), aj.copy(), ap.copy()), shape=(n, n))
+            kw = {'ratio': ratio, 'measure': None if measure == 'None' else measure, 'maxiter': maxiter,
+                  'rebalance_iters': reb}
+            case = {'routine': 'balanced_lloyd_aggregation', 'n': n, 'ap': ap.tolist(), 'aj': aj.tolist(),
+                    'ax': [float(v) for v in ax2], 'seed': seed, **kw}
+            np.random.seed(seed)
+            err = None
+            with _ArgsortSpy(PG) as spy:
+                try:
+                    with warnings.catch_warnings():
+                        warnings.simplefilter('ignore')
+                        AggOp, ce = AG.balanced_lloyd_aggregation(C, **kw)
+                    AggOp = sp.csr_array(AggOp)
+                    out = enc_ints(AggOp.indptr) + ';' + enc_ints(AggOp.indices) + ';' + enc_ints(AggOp.data) + ';' + enc_ints(ce)
+                    res = (AggOp, ce)
+                except ValueError as ex:
+                    msg = str(ex)
+                    out = ('ValueError:maxsize' if 'maxsize' in msg else 'ValueError:disconnected' if 'disconnected' in msg
+                           else 'ValueError:pc' if 'Predecessor' in msg else 'ValueError')
+                    res, err = None, out
+                except RuntimeError:
+                    out, res, err = 'too-many-iterations', None, 'RuntimeError'
+            es, ss = _ords(spy.calls)
+            line = (f'ext_c12_ballloyd_agg {measure} {enc_rat(ratio)} {_hdr(n, ap, aj, ax2)} {enc_rat(TOL)} {enc_ints(perm)} '
+                    f'{maxiter} {reb} {es} {ss}')
+            zero_w = measure == 'min' and len(ax2) > 0      # data - min(data) has a zero: rejected as documented
+
+            def judge_agg(res=res, err=err, n=n, sym=sym, conn=conn, zero_w=zero_w):
+                if res is None:
+                    if err == 'ValueError':
+                        return None if zero_w else 'ValueError for a valid input'
+                    if sym and conn and not zero_w:
+                        return f'{err} on a connected symmetric graph'
+                    return None
+                if zero_w:
+                    return 'a zero-length edge was accepted'
+                if not sym:
+                    return None     # the property is about symmetric strength graphs
+                e = check_aggop(res[0], res[1], n, 'balanced_lloyd')
+                if e:
+                    return e
+                if res[0].toarray().sum(1).min() != 1:
+                    return 'a node is left unaggregated'
+                return None
+            items.append((line, out, 'balanced_lloyd_aggregation', has_edge, judge_agg, case))
+            ctx.feat('bal_measure:' + measure)
+    outs = ctx.lean([it[0] for it in items]) if items else []
+    for (line, out, what, nontriv, judge, case), o in zip(items, outs):
+        ctx.case(key=_key(line), nontrivial=nontriv,
+                 sample={'request': line[:200], 'model': o[:100], 'impl': out[:100]} if ctx.evaluations % 97 == 0 else None)
+        ctx.feat('bal:' + what)
+        ctx.feat('bal_outcome:' + (o[:32] if o[:1].isalpha() else 'returns'))
+        if o.startswith('unmodelled'):
+            ctx.feat('bal:' + o[:40])
+        elif o != out:
+            ctx.corr(what + ' vs BalLloyd model', case, o, out)
+        e = judge()
+        if e:
+            ctx.violation(f'{what}: {e}', case)
+
+
 def run(ctx):
     if ctx.quick:
         part_a(ctx, list(graph_stream(ctx, 4, 300, 40)))
         part_b(ctx, list(graph_stream(ctx, 4, 200, 30)))
         part_c(ctx, list(graph_stream(ctx, 4, 300, 40)))     # after a, b: leaves the random streams of parts a, b unchanged
         part_d(ctx, list(graph_stream(ctx, 4, 300, 30)))
+        part_v(ctx, list(graph_stream(ctx, 4, 200, 30)))     # part v (values) last: the random streams of the parts above are unchanged
     else:
         part_a(ctx, list(graph_stream(ctx, 6, 5000, 60)))
         part_b(ctx, list(graph_stream(ctx, 5, 3000, 60)))
         part_c(ctx, list(graph_stream(ctx, 5, 5000, 60)))
         part_d(ctx, list(graph_stream(ctx, 5, 4000, 50)))
+        part_e(ctx, list(graph_stream(ctx, 5, 4000, 40)))
+        part_v(ctx, list(graph_stream(ctx, 5, 2500, 50)))
 
 
 def search(ctx):
     part_b(ctx, list(graph_stream(ctx, 5, 1500, 40)))
     part_c(ctx, list(graph_stream(ctx, 5, 1500, 40)))
     part_d(ctx, list(graph_stream(ctx, 5, 1500, 40)))
+    part_v(ctx, list(graph_stream(ctx, 5, 1500, 40)))
 
 
 def replay_lloyd(ctx, c):
@@ -691,6 +1232,19 @@ def replay(ctx, data):
         k = amg_core.pairwise_aggregation(n, ap, aj, ax, x, y)
         print('replaying pairwise kernel: x =', x.tolist(), 'y =', y[:k].tolist(), 'k =', k)
         compare_pairwise_calls(ctx, [(n, ap, aj, ax, x, y, int(k), 'raw')])
+        for v in ctx.violations[:5]:
+            print('  ', v['what'])
+        return
+    if str(c.get('routine', '')).startswith('values:'):
+        calls = []
+        res = values_case(ctx, c, calls)
+        print('replaying', c['routine'], {k: v for k, v in c.items() if k not in ('ap', 'aj', 're', 'im')}, '->', res['err'] or 'holds')
+        if res['err']:
+            ctx.violation(f'{c["routine"]}: {res["err"]}', c, fkey=res['fkey'])
+        compare_pairwise_calls(ctx, calls)
+        return
+    if c.get('routine') in ('balanced_lloyd_cluster', 'center_nodes', 'balanced_lloyd_aggregation'):
+        replay_bal(ctx, c)
         for v in ctx.violations[:5]:
             print('  ', v['what'])
         return
